@@ -86,8 +86,83 @@ def run_one(exe, s):
         shutil.rmtree(d, ignore_errors=True)
 
 
+def natural_f2(xs, fs):
+    n = len(xs)
+    if n < 3:
+        return [0.0] * n
+    a, b, c, d = [0.0] * n, [1.0] * n, [0.0] * n, [0.0] * n
+    for i in range(1, n - 1):
+        h0, h1 = xs[i] - xs[i - 1], xs[i + 1] - xs[i]
+        a[i], b[i], c[i] = h0 / 6, (h0 + h1) / 3, h1 / 6
+        d[i] = (fs[i + 1] - fs[i]) / h1 - (fs[i] - fs[i - 1]) / h0
+    for i in range(1, n):
+        w = a[i] / b[i - 1]
+        b[i] -= w * c[i - 1]
+        d[i] -= w * d[i - 1]
+    x = [0.0] * n
+    x[-1] = d[-1] / b[-1]
+    for i in range(n - 2, -1, -1):
+        x[i] = (d[i] - c[i] * x[i + 1]) / b[i]
+    return x
+
+
+def spline_eval(xs, fs, f2, r):
+    i = 0
+    while i < len(xs) - 2 and r >= xs[i + 1]:
+        i += 1
+    h = xs[i + 1] - xs[i]
+    A = (xs[i + 1] - r) / h
+    B = 1 - A
+    return A * fs[i] + B * fs[i + 1] + (A ** 3 - A) * h * h / 6 * f2[i] + (B ** 3 - B) * h * h / 6 * f2[i + 1]
+
+
+def gen_fit(rng):
+    """data sampled from a natural cubic spline on the fit grid: the fit has to reproduce it (it lies in the spline space)"""
+    nk = rng.choice([4, 5, 6, 8])
+    fst = rng.choice([0.25, 0.5, 0.2])
+    fmn = rng.choice([0.0, 0.5, 1.0])
+    n = int(((fmn + (nk - 1) * fst) - fmn) / fst + 1.00000001)
+    fmx = round(fmn + (nk - 1) * fst, 6)
+    kx = [fmn + i * fst for i in range(n - 1)] + [fmx]          # Spline::GenerateGrid
+    ky = [round(rng.uniform(-3, 3), 3) for _ in kx]
+    f2 = natural_f2(kx, ky)
+    m = rng.choice([2, 3, 4, 7]) * (len(kx) - 1) + 1
+    xs = [round(fmn + (fmx - fmn) * i / (m - 1), 9) for i in range(m)]
+    xs[-1] = fmx
+    ys = [spline_eval(kx, ky, f2, x) for x in xs]
+    cut = rng.random() < 0.4
+    pre, post = [], []
+    if cut:
+        # points outside the fit grid carry values far off the curve: they are cut off before the fit
+        pre = [(round(fmn - 0.3 + 0.1 * i, 6), 50.0 + i) for i in range(3)]
+        post = [(round(fmx + 0.1 * (i + 1), 6), -40.0 - i) for i in range(3)]
+    ost = rng.choice([fst, fst / 2, fst / 5])
+    return dict(fit=True, kx=kx, ky=ky, fmn=fmn, fmx=fmx, fst=fst, data=pre + list(zip(xs, ys)) + post, omn=fmn, omx=fmx, ost=ost)
+
+
+def run_fit(exe, s):
+    d = tempfile.mkdtemp(prefix="c12f_", dir=os.environ.get("VERIF_TMP", os.path.join(VERIF, ".cache", "tmp")))
+    try:
+        with open(os.path.join(d, "in"), "w") as f:
+            for x, y in s["data"]:
+                f.write("%r %r i\n" % (x, y))
+        cmd = [exe, "--in", "in", "--out", "out", "--grid", "%r:%r:%r" % (s["omn"], s["ost"], s["omx"]),
+               "--fitgrid", "%r:%r:%r" % (s["fmn"], s["fst"], s["fmx"]), "--type", "cubic"]
+        r = subprocess.run(cmd, cwd=d, stdout=subprocess.PIPE, stderr=subprocess.PIPE, timeout=60)
+        ok = r.returncode == 0 and os.path.exists(os.path.join(d, "out"))
+        line = "C12 resfit %s %d %s %s %s %s %s %s %s" % (s["sid"], len(s["kx"]), " ".join("%s %s" % (me(x), me(y)) for x, y in zip(s["kx"], s["ky"])),
+                                                       me(s["fmn"]), me(s["fmx"]), me(s["fst"]), me(s["omn"]), me(s["omx"]), me(s["ost"]))
+        if not ok:
+            return line + " | err 0"
+        out = read_table(os.path.join(d, "out"))
+        return line + " | ok %d %s" % (len(out), " ".join("%s %s %s" % (me(x), me(y), fl) for x, y, fl in out))
+    finally:
+        shutil.rmtree(d, ignore_errors=True)
+
+
 def mk(seed, i):
-    s = gen(random.Random(seed * 1000003 + i))
+    rng = random.Random(seed * 1000003 + i)
+    s = gen_fit(rng) if rng.random() < 0.2 else gen(rng)
     s["sid"] = "%d:%d" % (seed, i)
     return s
 
@@ -102,11 +177,11 @@ def main():
     else:
         scen = []
         for line in sys.stdin:
-            for t in re.findall(r"C12 resample (\d+:\d+)", line):
+            for t in re.findall(r"C12 res(?:ample|fit) (\d+:\d+)", line):
                 a, b = t.split(":")
                 scen.append(mk(int(a), int(b)))
     with ThreadPoolExecutor(int(os.environ.get("VERIF_JOBS", "12"))) as ex:
-        for line in ex.map(lambda s: run_one(exe, s), scen):
+        for line in ex.map(lambda s: run_fit(exe, s) if s.get("fit") else run_one(exe, s), scen):
             sys.stdout.write(line + "\n")
 
 
